@@ -47,6 +47,20 @@ def is_documented_error(text):
     return kind in DOCUMENTED_ERRORS and any(msg.startswith(p) for p in documented_prefixes())
 
 
+_DOC_TABLE = None
+
+
+def _documented_message(status):
+    """the description of `status` in the table of the docstring of minimize (None = not in the table)"""
+    global _DOC_TABLE
+    if _DOC_TABLE is None:
+        import re
+        import cobyqa
+        import translate
+        _DOC_TABLE = dict(translate._status_table(cobyqa.minimize.__doc__))
+    return _DOC_TABLE.get(status)
+
+
 def _work(item):
     """Runs in a worker process: record one run, return JSON-safe summary."""
     desc, inject, timeout = item
@@ -67,6 +81,7 @@ def _work(item):
         summ["nit"] = int(res.nit)
         summ["success"] = bool(res.success)
         summ["message"] = str(res.message)
+        summ["message_documented"] = _documented_message(int(res.status))
         ev = out["rec"].events
         summ["n_soc"] = sum(1 for e in ev if e == "soc")
         summ["n_geom"] = sum(1 for e in ev if e == "geom")
